@@ -180,7 +180,7 @@ def run(rep, tier, seed):
         "evaluations": len(pairs) + ncases, "distinct_nontrivial": len(nontrivial),
         "rule": "%d generated and %d hand-made well-formed recipes (canonical: no extensions/empty converter; extended: all "
                 "extensions/bundled converter) x {crlf, trail_comment, trail_space, mid_comment, mid_comment_spaced, "
-                "extra_lines} x %d tapes (one point / up to four / every legal point), plus trail_comment+crlf; "
+                "name_comment_spaced, extra_lines} x %d tapes (one point / up to four / every legal point), plus trail_comment+crlf; "
                 "CRLF on every input without backslash or lone CR: exhaustive strings containing a newline (%d; "
                 "length <= %d over the 16-symbol core alphabet and %s over a 12-symbol comment/metadata "
                 "alphabet), front-matter line arrangements (%d), one-token mutations of generated recipes (%d), "
@@ -200,6 +200,11 @@ def run(rep, tier, seed):
             "between_lines_of_a_block": "a blank line between the lines of a step or paragraph is a block separator by definition",
             "meta_line_under_front_matter": "`>>` lines are not metadata when a front matter exists",
             "meta_without_colon": "not a metadata entry",
+            "probe_value_spaced": "a comment with a blank on BOTH sides inside a metadata value: the value keeps both blanks "
+                                  "(\"A [- c -] b\" reads \"A  b\"); the edit adds a blank of its own, so it is reported, not judged. "
+                                  "The same variant between the words of component names, aliases, notes, section names and "
+                                  "metadata keys IS judged (edit name_comment_spaced): text_trimmed collapses the double blank",
+            "probe_brace": "a comment after a word/number inside `{...}`: quantity positions, reported only",
         },
         "probes_not_judged": probes,
         "monitor_cases": len(pairs), "monitor_parses": len(keys), "monitor_violations": len(hits),
